@@ -3,7 +3,7 @@
 single instance fed the live batches (oracle), and vs the Lean class model (`prog`)."""
 from __future__ import annotations
 import time
-from ..common import Rng, Report, budget
+from ..common import Rng, Report, budget, ckey
 from ..registry import SPECS, Spec, fresh_cfg, public_cfg, new_metric
 from ..engine import observe, same_obs, obs_json, fed
 from ..progs import Prog, run_real, model_results, compare_with_model
@@ -134,7 +134,7 @@ def one_round(rep: Report, rng: Rng, spec: Spec, cfg0: dict, n: int, max_batches
     for idx, (p, (root, shape, nonempty), res) in enumerate(zip(progs, meta, reals)):
         rep.count(f"shape:{shape}"); rep.count(f"class:{spec.name}")
         rep.count(f"nonempty-shards:{min(nonempty,4)}")
-        key = (spec.name, repr(public_cfg(p.cfg)), shape, len(p.ops), idx, rep.evaluations) if nonempty >= 2 else None
+        key = (spec.name, repr(public_cfg(p.cfg)), shape, ckey(p.describe())) if nonempty >= 2 else None
         rep.case(nontrivial_key=key, sample=p.describe() if (rep.evaluations % 997 == 0) else None)
         errs = [r for op, r in zip(p.ops, res) if op[0] in ("u", "m") and r is not None]
         if errs:
